@@ -127,3 +127,31 @@ Definition dse_check (f f' : func) : bool :=
 Definition dse_check_liberal (f f' : func) : bool :=
   let C := pure_cert (infer false f) in
   dse_check_with false f f' C (dinfer f f' C) || dse_check_with false f f' (empty_cert f) (dinfer f f' (empty_cert f)).
+
+(* ------------------------------------------------------------------ diagnosis (reports only): first failing position of a block *)
+Fixpoint dscan_diag (strict : bool) (f : func) (C : cert) (Q : qcert) (asz : Z -> Z) (F : list fact) (P : list pitem)
+         (l l' : list inst) (k : Z) : list Z :=
+  match l, l' with
+  | [], [] => []
+  | i :: t, i' :: t' =>
+      if inst_eqb i i' then
+        if negb (forallb (reads_clear strict F asz i) P) then [k; 1]
+        else if negb (forallb (dedge_ok f C Q F P) (succs i)) then [k; 2]
+        else dscan_diag strict f C Q asz (pfacts_step F asz i) (filter (fun x => negb (covered F asz i x)) P) t t' (k + 1)
+      else
+        if negb (is_nop i' && null (i_outs i) && deletable (i_op i)) then [k; 3]
+        else match deleted_items F asz i with
+             | Some ls => dscan_diag strict f C Q asz (pfacts_step F asz i) (ls ++ P)%list t t' (k + 1)
+             | None => [k; 4]
+             end
+  | _, _ => [k; 5]
+  end.
+Definition dse_diag (strict : bool) (f f' : func) : list Z :=
+  let C := pure_cert (infer strict f) in
+  let Q := dinfer f f' C in
+  let asz := asz_of f in
+  flat_map (fun b => match dscan_diag strict f C Q asz (cert_at C (N.of_nat b)) (q_at Q (N.of_nat b))
+                                     (body (nth b f [])) (body (nth b f' [])) 0 with
+                     | [] => []
+                     | r => Z.of_nat b :: Z.of_nat (List.length (leading_phis (nth b f []))) :: r
+                     end) (seq 0 (List.length f)).
